@@ -885,6 +885,11 @@ run_op(char *op, int last)
         struct lyd_node *n = node_arg(a[1]);
         if (!n) REFUSE("NoNode");
         done(lyd_unlink_tree(n), search);
+    } else if (law_mode && !strcmp(a[0], "unlinksibs") && na == 2) {
+        /* the node and all its following siblings become a parent-less sibling list (moved as a whole by a later insert) */
+        struct lyd_node *n = node_arg(a[1]);
+        if (!n) REFUSE("NoNode");
+        done(lyd_unlink_siblings(n), search);
     } else if (!strcmp(a[0], "free") && na == 2) {
         struct lyd_node *n = node_arg(a[1]);
         if (!n) REFUSE("NoNode");
